@@ -8,9 +8,37 @@ pub fn stub_format(_args: core::fmt::Arguments<'_>) -> String {
     String::new()
 }
 
+/// the bit round trip the atomics perform (same expression shape as the code, so the solver sees
+/// syntactically identical float terms on both sides of a contract equality)
+pub fn rt(x: f64) -> f64 {
+    f64::from_bits(x.to_bits())
+}
+
 /// bitwise f64 equality that identifies all NaNs
 pub fn feq(a: f64, b: f64) -> bool {
     (a.is_nan() && b.is_nan()) || a.to_bits() == b.to_bits()
+}
+
+pub fn mk_desc() -> crate::desc::Desc {
+    crate::desc::Desc {
+        fq_name: String::new(),
+        help: String::new(),
+        const_label_pairs: Vec::new(),
+        variable_labels: Vec::new(),
+        id: 0,
+        dim_hash: 0,
+    }
+}
+
+/// A `Value` built field by field (all fields are `pub`): no `Desc::new` in the cone.
+pub fn mk_value<P: crate::atomic64::Atomic>(init: P::T, vt: crate::value::ValueType) -> crate::value::Value<P> {
+    crate::value::Value { desc: mk_desc(), val: P::new(init), val_type: vt, label_pairs: Vec::new() }
+}
+
+/// address of an atomic wrapper (`AtomicF64`/`AtomicU64`/`AtomicI64` are single-field structs, so
+/// this is the address of the std atomic inside; checked by harness c01_wrapper_layout)
+pub fn addr_of<T>(x: &T) -> usize {
+    x as *const T as usize
 }
 
 /// a per-run canary: this assertion is false on purpose; the driver requires it to be
